@@ -1097,3 +1097,110 @@ _ber_trust = ["Go reflect, and the table emitter classifying struct types (Value
 PROPS["C04"] = dict(lean=["ChfVerif.Props.C04"], explore=explore_c04, gen=[gen_table("schema", "Schema.lean")], trusted=_ber_trust)
 PROPS["C05"] = dict(lean=["ChfVerif.Props.C05"], explore=explore_c05, gen=[gen_table("schema", "Schema.lean")], trusted=_ber_trust)
 PROPS["C16"] = dict(lean=["ChfVerif.Props.C16"], explore=explore_c16, trusted=_ber_trust)
+
+
+# ------------------------------------------------------------------ C03  (CDR files written by the CHF)
+
+C03_LIMIT = 65535
+
+
+def explore_c03(ctx, res, replay_ops=None):
+    r = ctx.stream("cdrsize", n_for(ctx, 60, 900), ops=replay_ops, with_model=False)
+    kf = ctx.kf_classes()
+    q, qi = [], []
+    obs = []
+    for i, (op, im) in enumerate(zip(r.ops, r.impl)):
+        d = dict(x.split("=", 1) for x in im.split(" ") if "=" in x)
+        obs.append(d)
+        if d.get("file", "~") not in ("~",) and "recs" in d:
+            q.append("c03 %s %s" % (d["file"] if d["file"] != "-" else "", d["recs"]))
+            qi.append(i)
+    out = core.driver_run(q) if q else []
+    verdict = dict(zip(qi, out))
+    start = 0            # first op of the current scenario (for replays)
+    prev = []            # record sizes after the previous operation
+    blamed = {}          # index of an oversize record -> known-finding class that explains it
+    for i, (op, im) in enumerate(zip(r.ops, r.impl)):
+        t = op.split(" ")
+        kind = t[1] if len(t) > 1 else ""
+        if kind == "reset":
+            start, prev, blamed = i, [], {}
+            continue
+        d = obs[i]
+        if kind in ("end",) or "st" not in d:
+            if im.split(" ")[0] in ("panic", "timeout"):
+                res.violation("oracle", "C03: %s while handling a charging request" % im.split(" ")[0], r.ops[start:i + 1] + ["# impl: " + im[:300]])
+            continue
+        res.evaluations += 1
+        res.dist[kind] += 1
+        recs = d.get("recs", "-")
+        sizes = [len(x) // 2 for x in recs.split(";")] if recs != "-" else []
+        replay = r.ops[start:i + 1]
+        pre, chg = int(d.get("pre", -1)), int(d.get("chg", -1))
+        if sizes:
+            res.dist["max-record=%s" % ("<256" if max(sizes) < 256 else "<16k" if max(sizes) < 16384 else "<60k" if max(sizes) < 60000 else
+                                          "60k..65535" if max(sizes) <= C03_LIMIT else ">65535")] += 1
+        # --- the 65535-octet record limit
+        for k, sz in enumerate(sizes):
+            if sz <= C03_LIMIT or k in blamed:
+                continue
+            cls = None
+            if kind == "release":
+                cls = "release-appends-usage-unguarded"
+            elif kind == "create":
+                cls = "create-appends-usage-unguarded"
+            elif k >= len(prev):
+                cls = "update-usage-exceeds-fresh-record"
+            elif pre >= 0 and chg >= 0 and pre + chg <= C03_LIMIT and sz <= pre + chg + 8:
+                cls = "update-guard-ignores-header-growth"
+            if cls and cls in kf:
+                blamed[k] = cls
+                res.kf[cls] = kf[cls]
+                res.dist["kf:" + cls] += 1
+            else:
+                blamed[k] = "?"
+                res.violation("oracle", "C03: %s left a record of %d octets (> 65535) in the subscriber's records%s" % (
+                    kind, sz, "" if cls is None else " [%s]" % cls), replay + ["# impl: " + im[:200] + "…", "# record sizes: %s -> %s pre=%d chg=%d" % (prev, sizes, pre, chg)])
+        # --- the file written by this operation
+        if i in verdict:
+            v = dict(x.split("=", 1) for x in verdict[i].split(" ") if "=" in x)
+            res.traces_validated += 1
+            res.nontrivial.add(op + "#%d" % i)
+            res.dist["records-in-file=%s" % v.get("n", "?")] += 1
+            if len(res.samples) < 5:
+                res.sample({"op": op, "status": d.get("st"), "record_sizes": sizes, "verdict": verdict[i]})
+            if v.get("model") != "ok":
+                res.disagreements += 1
+                res.violation("correspondence", "C03: the written file is not what the dumpCdrFile model writes for any of the subscriber's records",
+                              replay + ["# verdict: " + verdict[i], "# record sizes: %s" % sizes])
+            bad = [k for k in ("read", "lens", "reclen") if v.get(k) not in ("ok",)]
+            if bad:
+                if int(v.get("over", "0")) > 0 and v.get("model") == "ok" and all(c != "?" for c in blamed.values()) and blamed:
+                    res.dist["malformed-file-explained-by-known-oversize-record"] += 1
+                else:
+                    res.violation("oracle", "C03: the written file is not a well-formed TS 32.297 file (%s)" % ",".join(bad),
+                                  replay + ["# verdict: " + verdict[i], "# record sizes: %s" % sizes])
+            else:
+                if v.get("wf") != "ok":
+                    res.violation("oracle", "C03: a record payload of the written file is not one complete BER element (%s)" % v.get("wf"),
+                                  replay + ["# verdict: " + verdict[i]])
+                if v.get("member") != "ok":
+                    res.violation("oracle", "C03: a record payload of the written file is not the encoding of any record the subscriber context holds (%s)" % v.get("member"),
+                                  replay + ["# verdict: " + verdict[i]])
+        elif kind in ("update", "fit", "release") and d.get("st") in ("200", "204"):
+            res.violation("oracle", "C03: a successful %s wrote no CDR file" % kind, replay + ["# impl: " + im[:200]])
+        prev = sizes
+    res.rule = ("offline charging sessions through the real router: one session growing by 40 (thorough 160) updates across the 127/255/65535 "
+                "header boundaries; updates of 2300..2610 containers landing below/at/above the limit followed by small updates and a release "
+                "that adds usage; updates sized at run time so that len(record)+len(usage) = 65535+d for d in -8..2 on a fresh and on a grown "
+                "record; single requests of 3000 containers / a 70000-octet UPF id on update, create and release; random multi-session "
+                "histories. After every operation the written /tmp/<supi>.cdr is read by the independent TS 32.297 reader "
+                "(lengthsConsistent, record length fields), every payload walked by X690.wellFormed and required to be the encoding of a "
+                "record of the subscriber context, and the whole file compared with the dumpCdrFile model (dumpBytes). "
+                "non-trivial = operation that wrote a file")
+    res.assumptions.append("the partial-record path (quota exhaustion re-opening the record with a RecordSequenceNumber) is not driven by this stream")
+
+
+PROPS["C03"] = dict(lean=["ChfVerif.Props.C03"], explore=explore_c03,
+                    trusted=["os.WriteFile/ReadFile; the harness reads the file the operation wrote and marshals ue.Records with the CHF's own parameters",
+                             "that no record above 65535 octets is handed to dumpCdrFile is decided on the explored histories only (C03 partial)"])
